@@ -103,17 +103,19 @@ Section ServeHlsSpec.
   Variable md5raw : bytes -> bytes.
   Variable parse_query : bytes -> option (list (bytes * bytes)).
   Variable lower_uni : bytes -> bytes.
+  Variable parse_query_all : bytes -> list (bytes * bytes).
 
   (* the history with the address each request came from *)
-  Fixpoint sh_run_tagged (cfg : sa_config) (root : bytes) (t : bl_table) (now : Z) (ops : list sh_op)
+  Fixpoint sh_run_tagged (cfg : sa_config) (sub_on : bool) (root : bytes) (st : hls_state) (now : Z) (ops : list sh_op)
     : list (bytes * hls_resp) :=
     match ops with
     | [] => []
     | ShGet ip path query :: r =>
-        let '(t', resp) := serve_hls md5raw parse_query lower_uni cfg root t now ip path query in
-        (ip, resp) :: sh_run_tagged cfg root t' now r
-    | ShBlacklist ip dur :: r => sh_run_tagged cfg root (bl_add t ip dur now) now r
-    | ShSleep s :: r => sh_run_tagged cfg root t (now + s)%Z r
+        let '(st', resp) := serve_hls md5raw parse_query lower_uni parse_query_all cfg sub_on root st now ip path query in
+        (ip, resp) :: sh_run_tagged cfg sub_on root st' now r
+    | ShBlacklist ip dur :: r =>
+        sh_run_tagged cfg sub_on root (mk_hls_state (bl_add (hs_bl st) ip dur now) (hs_sessions st) (hs_next st)) now r
+    | ShSleep s :: r => sh_run_tagged cfg sub_on root st (now + s)%Z r
     end.
 End ServeHlsSpec.
 
@@ -131,5 +133,8 @@ Definition sh_op_ok (ip : bytes) (o : sh_op) : Prop :=
   | ShSleep s => (0 <= s)%Z
   end.
 
-(* "HLS content" = the handler was reached and opened a file *)
-Definition no_content (r : hls_resp) : Prop := forall p, r <> HrFile p.
+(* "HLS content" = the handler opened a file; a black-listed address is not even given a session *)
+Definition no_content (r : hls_resp) : Prop := (forall p, r <> HrFile p) /\ (forall sid, r <> HrRedirect sid).
+
+(* the request got past simple auth and the black-list, i.e. hls.ServerHandler saw it *)
+Definition reaches_handler (r : hls_resp) : Prop := r <> HrAuthFail /\ r <> HrBlocked.
